@@ -149,8 +149,16 @@ func runSession1(ops []Op, o sessOpts, wantStates bool) (res sessResult) {
 	out := [2]uint32{128, 128} // announced chunk size per writer
 	ownS := [2]bool{}
 	var pending [2][]expectation
+	type keptMsg struct {
+		m *rtmp.Message
+		e expectation
+	}
+	var kept []keptMsg // every message returned by the reader is examined again after all later reads
 	verify := func(r *rtmp.Protocol, e expectation) (string, string) {
 		got, err := r.ReadMessage()
+		if err == nil {
+			kept = append(kept, keptMsg{got, e})
+		}
 		ctx := func() string {
 			return fmt.Sprintf("session %v, op %d %v (writer chunk size %d, wire bytes of this op: %s), read mode %v cut %d, read policy %d", ops, e.i, e.op, e.chunk, e.wire, o.Mode, o.Cut, o.Defer)
 		}
@@ -269,6 +277,12 @@ func runSession1(ops []Op, o sessOpts, wantStates bool) (res sessResult) {
 					return
 				}
 			}
+		}
+	}
+	for _, k := range kept {
+		if uint8(k.m.MessageType) != k.e.typ || k.m.Timestamp != uint64(k.e.ts) || !bytes.Equal(k.m.Payload, k.e.payload) {
+			res.Key, res.What = "message-changed-by-later-read/"+k.e.feat, fmt.Sprintf("the message returned for op %d %v was identical when returned but differs after the later reads of session %v", k.e.i, k.e.op, ops)
+			return
 		}
 	}
 	// no extra message: both directions fully consumed
